@@ -18,26 +18,21 @@ theorem ladder_shape :
 /-- a level parses its left operand with the next tighter level and then loops: operators of
     tighter levels end up deeper in the tree -/
 theorem level_descends (f k : Nat) (ts : List Token) (hk : k < nLevels) :
-    binLevel (f + 1) k ts =
-      match binLevel f (k + 1) ts with
-      | .ok l r => binLoop f k l r
-      | .err d => .err d
-      | .abn x => .abn x := by
+    binLevel (f + 1) k ts = (binLevel f (k + 1) ts).bind fun l r => binLoop f k l r := by
   rw [binLevel]; simp [hk]
-  cases binLevel f (k + 1) ts <;> rfl
 
 /-- binary operators associate to the left: on meeting an operator of its level the loop wraps what it has
     built so far as the LEFT child, takes ONE operand of the next level as the right child, and goes on -/
 theorem binary_left_assoc (f k : Nat) (l right : Expr) (t : Token) (r r2 : List Token)
     (ht : (levelOps k).contains t.tt = true) (hr : binLevel f (k + 1) r = .ok right r2) :
     binLoop (f + 1) k l (t :: r) = binLoop f k (mkBin k l t right) r2 := by
-  rw [binLoop]; simp only [ht, hr]; simp
+  rw [binLoop]; simp only [peekTok, ht, hr, PR.bind, if_true]
 
 /-- an operator of another level ends the loop and is left for an outer (looser) level -/
 theorem level_stops_at_foreign_operator (f k : Nat) (l : Expr) (t : Token) (r : List Token)
     (ht : (levelOps k).contains t.tt = false) :
     binLoop (f + 1) k l (t :: r) = .ok l (t :: r) := by
-  rw [binLoop]; simp only [ht]; simp
+  rw [binLoop]; simp only [peekTok, ht]; simp
 
 /-- prefix operators bind tighter than `**`: the operands of the `**` level are parsed by `unary`,
     and a prefix operator takes a `unary` (not a power expression) as its operand -/
@@ -48,13 +43,8 @@ theorem prefix_tighter_than_power (f : Nat) (ts : List Token) :
   · decide
 
 theorem unary_operand_is_unary (f : Nat) (t : Token) (r : List Token) (ht : Expect.unaryOps.contains t.tt = true) :
-    unary (f + 1) (t :: r) =
-      match unary f r with
-      | .ok e r2 => .ok (.unary t.tt t.line e) r2
-      | .err d => .err d
-      | .abn x => .abn x := by
-  rw [unary]; simp only [ht]; simp
-  cases unary f r <;> rfl
+    unary (f + 1) (t :: r) = (unary f r).bind fun e r2 => .ok (.unary t.tt t.line e) r2 := by
+  rw [unary]; simp only [peekTok, ht, if_true]
 
 /-- call / index / property suffixes bind tightest and chain left to right: each suffix wraps the
     expression built so far and the loop continues on the result -/
@@ -64,32 +54,34 @@ theorem suffix_chain_left_to_right (f : Nat) (e : Expr) (t2 : Token) (r : List T
     (t.tt = .LEFT_PAREN → t2.tt = .RIGHT_PAREN →
       suffix (f + 1) e (t :: t2 :: r) = suffix f (.call e t2.line []) r) := by
   constructor
-  · intro h1 h2; rw [suffix]; simp [h1, h2]
-  · intro h1 h2; rw [suffix]; simp [h1, h2]
+  · intro h1 h2; rw [suffix]; simp [peekTok, expectTok, PR.bind, h1, h2]
+  · intro h1 h2; rw [suffix]; simp [peekTok, h1, h2]
 
 /-- assignment associates to the right: after `=` the value is parsed by `assignment` itself -/
 theorem assign_right_assoc (f : Nat) (ts r1 r2 : List Token) (t : Token) (n : Name) (l : Nat) (v : Expr)
     (hl : binLevel f 0 ts = .ok (.ident n l) (t :: r1)) (ht : t.tt = .EQUAL) (hv : assignment f r1 = .ok v r2) :
     assignment (f + 1) ts = .ok (.assign n l v t.line) r2 := by
-  rw [assignment]; simp only [hl, hv]; simp [ht]
+  rw [assignment]; simp only [hl, hv, PR.bind, peekTok, ht, if_true]
 
 /-- a left side that is not a name, an index or a property access is diagnosed at its `=` -/
 theorem assign_bad_target (f : Nat) (ts r1 r2 : List Token) (t : Token) (e v : Expr)
     (hl : binLevel f 0 ts = .ok e (t :: r1)) (ht : t.tt = .EQUAL) (hv : assignment f r1 = .ok v r2)
     (h1 : ∀ n l, e ≠ .ident n l) (h2 : ∀ a i l, e ≠ .arrayAccess a i l) (h3 : ∀ o p l, e ≠ .propAccess o p l) :
     assignment (f + 1) ts = .err (errAt t "Invalid assignment target.".toList) := by
-  rw [assignment]; simp only [hl, hv]; simp only [ht, if_true]
+  rw [assignment]; simp only [hl, hv, PR.bind, peekTok, ht, if_true]
 
 /-- `নাহয়` attaches to the nearest `যদি`: the else is looked for immediately after the then-branch
     has been parsed, i.e. by the innermost pending `if` -/
 theorem else_binds_nearest_if (f : Nat) (t e : Token) (r r1 r2 r3 r5 r6 : List Token) (c : Expr) (th el : Stmt) (ds1 ds2 : List Diag)
+    (lp rp : Token)
     (ht : t.tt = .IF)
-    (h1 : expectTok .LEFT_PAREN "Expect '(' after 'if'." r = .ok () r1)
+    (h1 : expectTok .LEFT_PAREN "Expect '(' after 'if'." r = .ok lp r1)
     (h2 : assignment f r1 = .ok c r2)
-    (h3 : expectTok .RIGHT_PAREN "Expect ')' after if condition." r2 = .ok () r3)
+    (h3 : expectTok .RIGHT_PAREN "Expect ')' after if condition." r2 = .ok rp r3)
     (h4 : statement f r3 = .ok th (e :: r5) ds1) (he : e.tt = .ELSE)
     (h5 : statement f r5 = .ok el r6 ds2) :
     statement (f + 1) (t :: r) = .ok (.ifS c th (some el)) r6 (ds1 ++ ds2) := by
-  unfold statement; simp only [ht, h1, h2, h3, h4, h5]; simp [he]
+  unfold statement; simp only [peekTokS, ht, h1, h2, h3, PR.bind, PR.toSR, SR.bind, h4, h5, he, if_true]
+  simp
 
 end Borno.Props.C01
